@@ -28,6 +28,7 @@ class CaseOut:
         self.sample = None
         self.observations = []
         self.wall = 0.0
+        self.validated = 0
 
 
 def model_payload(enc: Encoding, m, prop, kind, program, src, extra=None):
@@ -113,6 +114,129 @@ def _unbounded(out, g, build, timeout_ms=2500):
         out.unbounded['unknown'] += 1
 
 
+# --------------------------------------------------------------------------- translator validation
+
+_POOL = None
+
+
+def sample_pool():
+    """Concrete objects of the universe used to validate translator + universe against the
+    real generated functions on every run (Serval-style)."""
+    global _POOL
+    if _POOL is None:
+        import collections
+        from . import userclasses as uc
+        _POOL = [
+            0, 1, True, False, 2.5, 1.0, 3 + 0j, 'a', '', 'ab', 'zz', b'a', b'', None, object(), uc.ufunc,
+            uc.UA(), uc.UB(), uc.UC(), uc.UImpl(), uc.UH(n=1), uc.UH(m=uc.UH(n=1)), uc.EColor.R, uc.ENum.ONE,
+            int, str, uc.UA, uc.UB, type, uc.USeq, uc.UProto,
+            [], [1], [1, 'a'], ['a', 1], [None, 'a'], [[1], ['a']], [[], [1]], [1.5, 2],
+            (), (1,), (1, 'a'), ('a', 1), (1, 'a', None), ((1,), ('a',)), (1, 2),
+            set(), {1}, {'a'}, frozenset(), frozenset({1}), frozenset({'a', None}),
+            {}, {'a': 1}, {1: 'a'}, {'a': [1]}, {'a': ['a']}, {1: 1, 'a': 'a'}, {None: None},
+            collections.deque(), collections.deque([1, 'a']), collections.deque(['a']),
+            collections.defaultdict(int), collections.defaultdict(int, {'a': 1}),
+            collections.OrderedDict(), collections.OrderedDict({'a': 1}), collections.OrderedDict({1: {1}}),
+            collections.Counter(), collections.Counter({'a': 1}), collections.Counter({1: 2}),
+            collections.ChainMap(), collections.ChainMap({'a': 1}), collections.ChainMap({1: 'a'}),
+            {}.keys(), {'a': 1}.keys(), {1: 'a'}.keys(), {}.values(), {'a': 1}.values(), {1: 'a'}.values(),
+            {}.items(), {'a': 1}.items(), {1: 'a'}.items(),
+            range(0), range(3),
+            uc.USeq(), uc.USeq([1]), uc.USeq(['a', 1]), uc.UMutSeq([1]), uc.UMutSeq(['a']),
+            uc.USet(), uc.USet([1]), uc.USet(['a']), uc.UColl([1]), uc.UColl(['a']), uc.UColl(),
+            uc.UMap(), uc.UMap({'a': 1}), uc.UMap({1: 'a'}),
+            uc.UIterable([1]), uc.UIterable(['a']), uc.UContainer([1]), uc.UReversible(['a']),
+            uc.UGenList(), uc.UGenList([1]), uc.UGenList(['a']), uc.UGenList([uc.UGenList([1])]), uc.UGenPlain(),
+        ]
+    return _POOL
+
+
+def validate_translation(out, g, enc, d, count=10):
+    """Push concrete objects through both the real generated tester and its encoding
+    (own universe and solver: every term is created before the solver is built)."""
+    from .drawpin import PIN
+    from .sym import translate_tester
+    from .universe import Universe
+    if g.tester is None:
+        return
+    pool = sample_pool()
+    U = Universe(8)
+    r = z3.Int('r')
+    h = abs(hash(out.name))
+    jobs = []
+    for j in range(count):
+        obj = pool[(h + j * 7) % len(pool)]
+        draw = (h >> 3) % 7 if j % 2 else 0
+        t = U.obj(f'v{j}')
+        abs_cs = U.abstraction(obj, t)
+        if abs_cs is None:
+            continue
+        try:
+            PIN.value = draw
+            real = bool(g.tester.func(obj))
+        except Exception as e:
+            real = ('error', type(e).__name__)
+        finally:
+            PIN.value = None
+        res = translate_tester(g.tester, U, t, r)
+        # pin the uninterpreted Is[...] predicates to what the real callables answer
+        for app, f in list(U._preds.values()):
+            for sub, subobj in _subterms(U, t, obj):
+                try:
+                    abs_cs.append(app(sub) == bool(f(subobj)))
+                except Exception:
+                    pass
+        jobs.append((obj, draw, real, abs_cs, res))
+    s = z3.Solver()
+    s.set('timeout', 10000)
+    s.add(U.constraints())
+    checked = 0
+    for obj, draw, real, abs_cs, res in jobs:
+        errs = z3.Or([sc.cond for sc in res.side]) if res.side else z3.BoolVal(False)
+        s.push()
+        s.add(*abs_cs, *res.extra, r == draw)
+        s.add(z3.Or(res.ret != real, errs) if real in (True, False) else z3.Not(errs))
+        t0 = time.time()
+        r1 = str(s.check())
+        out.solver_s += time.time() - t0
+        out.queries += 1
+        s.pop()
+        out.obligations += 1
+        if r1 == 'unsat':
+            out.discharged += 1
+            checked += 1
+        else:
+            out.inconclusive.append(f'translator validation: real tester gives {real} on {obj!r} (draw {draw}) '
+                                    f'but the encoding admits otherwise ({r1})')
+    out.validated = checked
+
+
+def _subterms(U, t, obj, depth=3):
+    """(term, real sub-object) pairs reachable from (t, obj) the way abstraction() walks."""
+    yield t, obj
+    if depth <= 0 or isinstance(obj, (str, bytes, type)):
+        return
+    from . import universe as un
+    name = un.NAME_OF.get(type(obj))
+    if name is None:
+        return
+    k = un.KIND[name]
+    if k in ('seq', 'coll', 'iterable', 'range'):
+        src = obj._i if hasattr(obj, '_i') else list(obj)
+        for i, it in enumerate(src):
+            yield from _subterms(U, U.item(t, z3.IntVal(i)), it, depth - 1)
+    elif k == 'map':
+        src = obj._d if hasattr(obj, '_d') else obj
+        for i, key in enumerate(list(src)):
+            kt = U.item(t, z3.IntVal(i))
+            yield from _subterms(U, kt, key, depth - 1)
+            yield from _subterms(U, U.val(t, kt), src[key], depth - 1)
+    elif name in ('UH', 'UA', 'UB'):
+        for ai, an in enumerate(un.ATTR_NAMES):
+            if hasattr(obj, an):
+                yield from _subterms(U, U.attr(t, ai), getattr(obj, an), depth - 1)
+
+
 # --------------------------------------------------------------------------- C01
 
 def c01(g, tier, out, src):
@@ -131,6 +255,7 @@ def c01(g, tier, out, src):
         for sc in enc.side[prog]:
             oblige(out, d, enc, 'C01', f'{prog}: [[H]](x) and {sc.kind} reachable at `{sc.where}`',
                    [full, sc.cond], ('side', prog), src)
+    validate_translation(out, g, enc, d)
     out.queries += d.stats['queries']
     out.solver_s += d.stats['solver_s']
     out.sample = {'hint': out.name, 'conf': out.confkw, 'bound_len': enc.U.bound,
